@@ -840,7 +840,7 @@ func c16Scenarios() []schedScenario {
 func (c16) Describe(tier string) fw.Description {
 	return fw.Description{
 		Level: "model_checking",
-		Rule: "(a) 6 JOIN queries (INNER/LEFT, with/without stream and table aliases, WHERE, composite ON) x 2-3 initial tables x all operation sequences of length 1..L over {EmitSync(key), UpsertTable(key), Delete(key)} with key components from {1, 1.0, '1', 2, 'a', NULL, 1000000, 1000000.0} (composite: {1,'1',1.0} x {'x','y',NULL}) on the real engine against a typed-key reference table (numbers numeric, strings exact, never across, NULL matches nothing); (a2) 864 naming configurations (stream alias none|s|st|ms x table alias m|t|none x stream key field x table key field, incl. names starting with the letters of their qualifier; INNER/LEFT) on a fixed 7-operation script; (a3) composite-key pair search: every (table key, probe key) pair over 15 component values incl. unit-separator-, tag- and NULL-marker-like strings must match iff equal; (a5) upserts whose row prints like the stored one (7 / "7" / 7.0, true / "true", a text spelling two columns): all ordered triples per family, value and Go type compared after each upsert; (a4) JOIN keyword spellings, an upsert that narrows a table row, key tuples colliding under faulty encoders; (b) WHERE + GROUP BY on a joined column with CountingWindow(2) over all dev sequences of length 6; (c) schedules: a thread emitting two rows against a thread doing Upsert then Delete, all interleavings with <= bound deviations: each delivered row must be the join against a table version between the version when Emit was called and the version when the result was delivered; non-trivial = at least one emit matched",
+		Rule: "(a) 6 JOIN queries (INNER/LEFT, with/without stream and table aliases, WHERE, composite ON) x 2-3 initial tables x all operation sequences of length 1..L over {EmitSync(key), UpsertTable(key), Delete(key)} with key components from {1, 1.0, '1', 2, 'a', NULL, 1000000, 1000000.0} (composite: {1,'1',1.0} x {'x','y',NULL}) on the real engine against a typed-key reference table (numbers numeric, strings exact, never across, NULL matches nothing); (a2) 864 naming configurations (stream alias none|s|st|ms x table alias m|t|none x stream key field x table key field, incl. names starting with the letters of their qualifier; INNER/LEFT) on a fixed 7-operation script; (a3) composite-key pair search: every (table key, probe key) pair over 15 component values incl. unit-separator-, tag- and NULL-marker-like strings must match iff equal; (a5) upserts whose row prints like the stored one (7 / text 7 / 7.0, true / text true, a text spelling two columns): all ordered triples per family, value and Go type compared after each upsert; (a4) JOIN keyword spellings, an upsert that narrows a table row, key tuples colliding under faulty encoders; (b) WHERE + GROUP BY on a joined column with CountingWindow(2) over all dev sequences of length 6; (c) schedules: a thread emitting two rows against a thread doing Upsert then Delete, all interleavings with <= bound deviations: each delivered row must be the join against a table version between the version when Emit was called and the version when the result was delivered; non-trivial = at least one emit matched",
 		Bounds:      map[string]any{"max_ops": map[string]int{"quick": 3, "thorough": 4}, "sched_bound": map[string]int{"quick": 1, "thorough": 2}},
 		Assumptions: []string{"a NULL key component matches nothing (SQL equality)"},
 	}
